@@ -142,7 +142,9 @@ def run(chk: Check) -> None:
         sf, lf = prog.view(c.methods['save_instance_state']), prog.view(c.methods['load_instance_state'])
         kv = prog.fold(c.module, c.attrs[key], c)
         v = saved_keys_of(prog, sf).get(kv)
-        chk.ob('SYM-continuation', sf, v is not None and norm(v) == f'self.{attr}.__name__', f'{c.name} saves its continuation by name under {kv!r}', kind='saved-by-name')
+        from ..facts import Canon
+        vkey = Canon(prog, chk.ctx.calls, sf).key(v) if v is not None else None
+        chk.ob('SYM-continuation', sf, v is not None and vkey == f'self.{attr}.__name__', f'{c.name} saves its continuation by name under {kv!r}', kind='saved-by-name')
         lb = loaded_bindings(ctx, lf)
         rebind = any(isinstance(n, ast.Call) and norm(n.func) == 'getattr' and norm(n.args[0]) == 'self.process' for n in ast.walk(lf.node))
         chk.ob('SYM-continuation', lf, attr in lb.get(kv, set()) and rebind, f'{c.name} re-binds the continuation with getattr(process, name) from the same key', kind='rebound-from-process')
